@@ -162,6 +162,6 @@ example :
     let w := (run World.empty ops).1
     (w.curOf 0, w.curOf 1) = (some 1, some 1) := by
   simp [run, step, World.ctx?, World.setCtx, World.curOf, World.setCur, World.empty,
-    alookup, ainsert, freshCtx, removeChild, runTeardown]
+    alookup, ainsert, freshCtx, removeChild]
 
 end Asphalt
